@@ -22,7 +22,7 @@ EXPLANATION = (
     "assigned; otherwise INCOMPLETE. The test `err.severity() <= SEVERITY_INCOMPLETE` after a literal read is "
     "evaluated from the literal itself: it is false exactly when the literal is in the kind's ISO 10303-21 language "
     "followed by a listed delimiter. (R2) E8 threading of `strict` over the resolved call graph (class-hierarchy "
-    "expansion of virtual calls) from the file entry points. (R3) constant/plumbing facts. Not decided: the value "
+    "expansion of virtual calls) from the file entry points. (R3) constant/plumbing facts. (R4) every threshold test under which a reader merges the severity of a part into the enclosing descriptor holds for SEVERITY_USERMSG, the severity of a lenient substitution. Not decided: the value "
     "actually written back beyond 'target assigned a constant'.")
 
 ENTRY = ["STEPfile::ReadExchangeFile", "STEPfile::AppendExchangeFile", "STEPfile::ReadWorkingFile",
